@@ -299,8 +299,22 @@ fn emit_logs(point: &str, phase: &str, s: &str, att: i64, label: &str) {
             json!({"cb":"log","point":point,"s":s,"att":att,"label":label,
                    "msg":msg,"world":0,"ctr":0}),
         );
-        tracing::info!("{msg}");
+        // every other log is emitted from inside a user span nested in the
+        // step / hook span (`#[instrument]`-style helpers do that)
+        if k % 2 == 1 {
+            tracing::info_span!("user_helper", k).in_scope(|| {
+                tracing::info_span!("inner").in_scope(|| tracing::info!("{msg}"));
+            });
+        } else {
+            tracing::info!("{msg}");
+        }
     }
+}
+
+/// `<outcome>_sync`: the callback panics in its own body, before it returns
+/// its future.
+fn sync_outcome(out: &str) -> Option<&str> {
+    out.strip_suffix("_sync")
 }
 
 // ----------------------------------------------------------- test double ----
@@ -366,6 +380,32 @@ impl World for TWorld {
 }
 
 fn step_fn(w: &mut TWorld, ctx: step::Context) -> LocalBoxFuture<'_, ()> {
+    {
+        let text = ctx.step.value.clone();
+        let label = text.rsplitn(2, ' ').nth(1).unwrap_or("").to_owned();
+        let (s, att) = w.owner.clone();
+        let out = with_ctx(|c| attempt_outcome(c, &s, att))
+            .steps
+            .get(&label)
+            .cloned()
+            .unwrap_or_else(|| "pass".into());
+        if let Some(out) = sync_outcome(&out) {
+            rec(
+                "cb",
+                json!({"cb":"enter","point":"step","s":s,"att":att,"label":label,
+                       "world":w.id,"ctr":w.ctr,"nmatches":ctx.matches.len()}),
+            );
+            w.ctr += 1;
+            let msg = format!("P|{s}|{att}|{label}");
+            rec(
+                "cb",
+                json!({"cb":"exit","point":"step","s":s,"att":att,"label":label,
+                       "world":w.id,"ctr":w.ctr,"outcome":out,"msg":msg,
+                       "sync":true}),
+            );
+            throw(out, msg);
+        }
+    }
     Box::pin(async move {
         let text = ctx.step.value.clone();
         // "<owner> (bg|step) <n> run"
@@ -420,6 +460,30 @@ s: &'a gherkin::Scenario,
 w: &'a mut TWorld,
 ) -> LocalBoxFuture<'a, ()> {
     let s = s.name.clone();
+    {
+        let att = with_ctx(|c| c.started_att.get(&s).copied())
+            .map_or(-1, |a| a as i64);
+        let out = with_ctx(|c| attempt_outcome(c, &s, att.max(0) as usize))
+            .before
+            .unwrap_or_else(|| "pass".into());
+        if let Some(out) = sync_outcome(&out) {
+            rec(
+                "cb",
+                json!({"cb":"enter","point":"before","s":s,"att":att,
+                       "label":"before","world":w.id,"ctr":w.ctr,
+                       "wowner_s":w.owner.0,"wowner_att":w.owner.1}),
+            );
+            w.ctr += 1;
+            let msg = format!("P|{s}|{att}|before");
+            rec(
+                "cb",
+                json!({"cb":"exit","point":"before","s":s,"att":att,
+                       "label":"before","world":w.id,"ctr":w.ctr,
+                       "outcome":out,"msg":msg,"sync":true}),
+            );
+            throw(out, msg);
+        }
+    }
     Box::pin(async move {
         let att = with_ctx(|c| c.started_att.get(&s).copied())
             .map_or(-1, |a| a as i64);
@@ -456,6 +520,40 @@ w: Option<&'a mut TWorld>,
 ) -> LocalBoxFuture<'a, ()> {
     let s = s.name.clone();
     let reason = reason_str(reason);
+    let mut w = w;
+    {
+        let att = with_ctx(|c| c.started_att.get(&s).copied())
+            .map_or(-1, |a| a as i64);
+        let out = with_ctx(|c| attempt_outcome(c, &s, att.max(0) as usize))
+            .after
+            .unwrap_or_else(|| "pass".into());
+        if let Some(out) = sync_outcome(&out) {
+            let (wid, ctr, wo_s, wo_a) =
+                w.as_ref().map_or((0, 0, String::new(), 0), |w| {
+                    (w.id, w.ctr, w.owner.0.clone(), w.owner.1)
+                });
+            rec(
+                "cb",
+                json!({"cb":"enter","point":"after","s":s,"att":att,
+                       "label":"after","world":wid,"ctr":ctr,
+                       "has_world":w.is_some(),"reason":reason,
+                       "wowner_s":wo_s,"wowner_att":wo_a}),
+            );
+            let mut ctr = ctr;
+            if let Some(w) = w.as_mut() {
+                w.ctr += 1;
+                ctr = w.ctr;
+            }
+            let msg = format!("P|{s}|{att}|after");
+            rec(
+                "cb",
+                json!({"cb":"exit","point":"after","s":s,"att":att,
+                       "label":"after","world":wid,"ctr":ctr,
+                       "outcome":out,"msg":msg,"sync":true}),
+            );
+            throw(out, msg);
+        }
+    }
     Box::pin(async move {
         let att = with_ctx(|c| c.started_att.get(&s).copied())
             .map_or(-1, |a| a as i64);
@@ -643,26 +741,50 @@ fn run_case_inner(
         .given(loc(3), re(r"^.* ambig$"), step_fn);
 
     let cfg = &case.cfg;
-    let serial_custom = cfg.serial_custom.clone();
-    let which = move |f: &gherkin::Feature,
-                      r: Option<&gherkin::Rule>,
-                      s: &gherkin::Scenario| {
-        let serial = serial_custom.as_ref().map_or_else(
-            || {
-                s.tags
-                    .iter()
-                    .chain(r.iter().flat_map(|r| &r.tags))
-                    .chain(&f.tags)
-                    .any(|t| t == "serial")
-            },
-            |names| names.contains(&s.name),
+    let base = runner::Basic::<TWorld>::default().steps(collection);
+    // The DEFAULT classifier (`@serial` inherited from scenario, rule and
+    // feature) unless the case asks for a custom one.
+    if let Some(names) = cfg.serial_custom.clone() {
+        let which = move |_: &gherkin::Feature,
+                          _: Option<&gherkin::Rule>,
+                          s: &gherkin::Scenario| {
+            if names.contains(&s.name) {
+                ScenarioType::Serial
+            } else {
+                ScenarioType::Concurrent
+            }
+        };
+        run_with(
+            base.which_scenario(which),
+            case,
+            parser_stream,
+            &recorder,
+            &items_out,
         );
-        if serial { ScenarioType::Serial } else { ScenarioType::Concurrent }
-    };
+    } else {
+        run_with(base, case, parser_stream, &recorder, &items_out);
+    }
 
-    let mut basic = runner::Basic::<TWorld>::default()
-        .steps(collection)
-        .which_scenario(which);
+    cucumber::verif::set_sink(None);
+}
+
+/// Configures the runner as the case says and drives it (generic over the
+/// scenario classifier, which is part of the runner's type).
+fn run_with<F>(
+    mut basic: runner::Basic<TWorld, F>,
+    case: &Case,
+    parser_stream: ScriptedParser,
+    recorder: &Arc<Mutex<Recorder>>,
+    items_out: &Arc<Mutex<Vec<Item>>>,
+) where
+    F: Fn(
+            &gherkin::Feature,
+            Option<&gherkin::Rule>,
+            &gherkin::Scenario,
+        ) -> ScenarioType
+        + 'static,
+{
+    let cfg = &case.cfg;
     match &cfg.conc_builder {
         None => {}
         Some(Value::String(s)) if s == "default" => {}
@@ -740,8 +862,8 @@ fn run_case_inner(
                 Poll::Pending => Poll::Pending,
             }),
             case,
-            &recorder,
-            &items_out,
+            recorder,
+            items_out,
         );
         TRACED.with(|t| *t.borrow_mut() = wlog.borrow().clone());
     } else {
@@ -758,12 +880,11 @@ fn run_case_inner(
         drive(
             Box::new(move |cx| stream.poll_next_unpin(cx)),
             case,
-            &recorder,
-            &items_out,
+            recorder,
+            items_out,
         );
     }
 
-    cucumber::verif::set_sink(None);
 }
 
 /// What is polled: yields stream items, `None` when the run is over.
